@@ -190,9 +190,17 @@ class Model:
             from .normalise import canonical_getattr, canonical_loop_guards
             self.inlined += canonical_getattr(self.modules)
             self.inlined += strip_fresh_write_only_state(self.modules)         # (again: counters written through setattr(self, 'name', ..) are visible only now)
+            from .normalise import strip_write_only_locals
+            self.inlined += strip_write_only_locals(self.modules)
             self.inlined += canonical_loop_guards(self.modules)
+            from .normalise import canonical_get_loops
+            self.inlined += canonical_get_loops(self.modules)
+            from .normalise import canonical_assert
+            self.inlined += canonical_assert(self.modules)
             from .normalise import simplify_bool_comparisons
             simplify_bool_comparisons(self.modules)
+            from .normalise import unwrap_quiet_try
+            self.inlined += unwrap_quiet_try(self.modules)
             self.inlined += propagate_attribute_aliases(self.modules)
             if nf:
                 self.inlined.append(('<package>', [], '%d f-strings / %%-formats written as str.format' % nf))
